@@ -7,12 +7,15 @@ package c07
 
 import (
 	"fmt"
+	"math"
 	"math/big"
 	"sort"
 	"strings"
 	"testing"
 
 	"github.com/dominant-strategies/go-quai/common"
+	"github.com/dominant-strategies/go-quai/consensus/misc"
+	"github.com/dominant-strategies/go-quai/core/rawdb"
 	"github.com/dominant-strategies/go-quai/core/types"
 	"github.com/dominant-strategies/go-quai/trie"
 	"pgregory.net/rapid"
@@ -142,6 +145,12 @@ func bodyMutations(recompute bool) []mutation {
 		bm("swap-first-two-txs", func(b *types.WorkObject) bool {
 			l := txs(b)
 			if len(l) < 2 || l[0].Hash() == l[1].Hash() {
+				return false
+			}
+			// with the body roots recomputed a swap of two independent transactions of equal price is
+			// itself a block an honest miner may build (same state, same receipts): it must be refused
+			// only when the swapped order breaks an ordering rule
+			if recompute && (swapBreaksOrder == nil || !swapBreaksOrder(b, l[0], l[1])) {
 				return false
 			}
 			l[0], l[1] = l[1], l[0]
@@ -300,6 +309,51 @@ func allMutations() []mutation {
 }
 
 // reseal gives the mutated copy a consistent header hash and a valid zone-order seal.
+// swapBreaksOrder is set by the test: it reports whether the block stays invalid when transactions
+// first, second (its first two, in that order) are swapped and the body roots recomputed.
+var swapBreaksOrder func(b *types.WorkObject, first, second *types.Transaction) bool
+
+// nonEtxPrice is the price the block-ordering rule compares for a Quai or Qi transaction
+// (state_processor.go: Quai = gas price; Qi = fee converted to Quai at the prime terminus' rate,
+// divided by the transaction's block gas). ok=false when it cannot be derived from stored data.
+func nonEtxPrice(zone *sim.Node, b *types.WorkObject, tx *types.Transaction) (*big.Int, bool) {
+	switch tx.Type() {
+	case types.QuaiTxType:
+		return tx.GasPrice(), true
+	case types.QiTxType:
+		in, out := new(big.Int), new(big.Int)
+		for _, ti := range tx.TxIn() {
+			u := rawdb.GetUTXO(zone.DB, ti.PreviousOutPoint.TxHash, ti.PreviousOutPoint.Index)
+			if u == nil || int(u.Denomination) >= len(types.Denominations) {
+				return nil, false
+			}
+			in.Add(in, types.Denominations[u.Denomination])
+		}
+		for _, to := range tx.TxOut() {
+			if int(to.Denomination) >= len(types.Denominations) {
+				return nil, false
+			}
+			out.Add(out, types.Denominations[to.Denomination])
+		}
+		fee := new(big.Int).Sub(in, out)
+		if fee.Sign() <= 0 {
+			return nil, false
+		}
+		pt := zone.Core.Slice().HeaderChain().GetHeaderByHash(b.PrimeTerminusHash())
+		if pt == nil {
+			return nil, false
+		}
+		feeQuai := misc.QiToQuai(b, pt.ExchangeRate(), b.Difficulty(), fee)
+		scaling := math.Log(float64(rawdb.ReadUTXOSetSize(zone.DB, b.ParentHash(sim.Zone))))
+		gas := types.CalculateBlockQiTxGas(tx, scaling, sim.ZoneLoc)
+		if gas == 0 {
+			return nil, false
+		}
+		return new(big.Int).Div(feeQuai, new(big.Int).SetUint64(gas)), true
+	}
+	return nil, false
+}
+
 func reseal(n *sim.Net, b *types.WorkObject, salt uint64) error {
 	b.WorkObjectHeader().SetHeaderHash(b.Header().Hash())
 	return n.Seal(b, sim.Zone, salt)
@@ -322,6 +376,33 @@ func TestC07_OwnAndMutants(t *testing.T) {
 			return
 		}
 		zone := n.Nodes[sim.Zone]
+		swapBreaksOrder = func(b *types.WorkObject, first, second *types.Transaction) bool {
+			ft, st := first.Type(), second.Type()
+			switch {
+			case ft == types.ExternalTxType && st == types.ExternalTxType:
+				stats.Label(part, "swap_two_inbound_etxs")
+				return true // inbound ETXs must be the next items of the queue, in order
+			case ft == types.ExternalTxType || st == types.ExternalTxType:
+				return false
+			}
+			if ft == types.QuaiTxType && st == types.QuaiTxType {
+				s1, e1 := types.Sender(sim.Signer(), first)
+				s2, e2 := types.Sender(sim.Signer(), second)
+				if e1 == nil && e2 == nil && s1.Equal(s2) {
+					stats.Label(part, "swap_same_sender")
+					return true // nonce order
+				}
+			}
+			p1, ok1 := nonEtxPrice(zone, b, first)
+			p2, ok2 := nonEtxPrice(zone, b, second)
+			// the rule refuses a transaction that pays a higher price than the non-ETX transaction
+			// before it; a clear margin keeps rounding of the Qi price out of the verdict
+			if ok1 && ok2 && p1.Cmp(new(big.Int).Add(p2, new(big.Int).Div(p2, big.NewInt(4)))) > 0 {
+				stats.Label(part, fmt.Sprintf("swap_price_order_%d_%d", ft, st))
+				return true
+			}
+			return false
+		}
 		steps := rapid.IntRange(3, 14).Draw(t, "steps")
 		ownBlocks, mutantsTried := 0, 0
 		kinds := map[string]bool{}
